@@ -40,25 +40,28 @@ def native(v):
     return v
 
 
-def native_dict(pb):
-    """a plain Python dict with the same content as the protobuf message (field names of the proto, nested dicts/lists)"""
+def native_dict(pb, deep):
+    """a plain Python dict with the same content as the protobuf message (field names of the proto).
+    deep: nested dicts everywhere (what proto-plus accepts); otherwise elements of repeated message fields and message-valued
+    map entries stay message instances (what a protobuf constructor accepts as keyword values)"""
     out = {}
     for f, v in pb.ListFields():
         if f.type == f.TYPE_MESSAGE and f.message_type.GetOptions().map_entry:
             vf = f.message_type.fields_by_name["value"]
-            out[f.name] = {k: (native_dict(x) if vf.type == vf.TYPE_MESSAGE else x) for k, x in v.items()}
+            out[f.name] = {k: (native_dict(x, deep) if (vf.type == vf.TYPE_MESSAGE and deep) else x) for k, x in v.items()}
         elif f.label == f.LABEL_REPEATED:
-            out[f.name] = [native_dict(x) if f.type == f.TYPE_MESSAGE else x for x in v]
+            out[f.name] = [native_dict(x, deep) if (f.type == f.TYPE_MESSAGE and deep) else x for x in v]
         elif f.type == f.TYPE_MESSAGE:
-            out[f.name] = native_dict(v)
+            out[f.name] = native_dict(v, deep)
         else:
             out[f.name] = v
     return out
 
 
 def to_plain_dict(cls, msg):
-    pb = cls.pb(msg) if hasattr(cls, "pb") else msg
-    return native_dict(pb)
+    if hasattr(cls, "pb"):
+        return native_dict(cls.pb(msg), True)
+    return native_dict(msg, False)
 
 
 def build_call(spec, is_async):
@@ -118,10 +121,13 @@ def run_sync(spec, gs, pkg):
     if spec.get("no_call"):
         return rec
     kw = build_call(spec, False)
+    kw.setdefault("timeout", spec.get("deadline", 20.0))   # a wrong arity must fail, not hang
     rec["stage"] = "call"
     res = fn(**kw)
     if spec.get("consume", "value") == "stream":
         rec["result"] = {"kind": "stream", "items": [D.encode_value(x) for x in res]}
+    elif spec.get("consume") == "ignore":
+        rec["result"] = {"kind": "ignored", "type": type(res).__module__ + "." + type(res).__qualname__}
     else:
         rec["result"] = D.encode_value(res)
     return rec
@@ -138,6 +144,7 @@ async def run_async(spec, gs, pkg):
     if spec.get("no_call"):
         return rec
     kw = build_call(spec, True)
+    kw.setdefault("timeout", spec.get("deadline", 20.0))
     rec["stage"] = "call"
     res = fn(**kw)
     if inspect.isawaitable(res):
@@ -146,7 +153,13 @@ async def run_async(spec, gs, pkg):
         if inspect.isawaitable(res):
             res = await res
         rec["result"] = {"kind": "stream", "items": [D.encode_value(x) async for x in res]}
+    elif spec.get("consume") == "ignore":
+        rec["result"] = {"kind": "ignored", "type": type(res).__module__ + "." + type(res).__qualname__}
     else:
+        if inspect.isawaitable(res) and not hasattr(res, "SerializeToString") and not hasattr(type(res), "serialize"):
+            # the awaited client method handed back something that must be awaited again to get the reply
+            rec["extra_await"] = type(res).__module__ + "." + type(res).__qualname__
+            res = await res
         rec["result"] = D.encode_value(res)
     return rec
 
